@@ -390,6 +390,19 @@ def run(ctx):
         r4.fail("C08.R4:from_u128:anchor", "-", "-", "anchor-missing: From<u128> for Uint256")
     else:
         ex = common.exit_sites(P, f)
+        # `fn from(val: u128) -> Self { Uint256::from_u128(val) }`: the conversion is the named constructor it hands its
+        # argument to (a bignumber function taking exactly that argument) — judged there, with the same rule
+        for _hop in range(2):
+            if len(ex) != 1:
+                break
+            v0 = ex[0][3]
+            if not (v0[0] == "call" and isinstance(v0[3], str) and len(v0[4]) == 1 and v0[4][0] == ("param", f.path, 0)):
+                break
+            h_ = P.fn(v0[3]) or P.fn(generic_path(v0[3]))
+            if h_ is None or h_.body is None or h_.crate != "bignumber" or h_.body.arg_count != 1 or h_.path in {g_.path for g_ in splitters(P)}:
+                break
+            f = h_
+            ex = common.exit_sites(P, f)
         rs = "|".join(sorted(ctx.roots(ex[0][3]))) if len(ex) == 1 else "?"
         good = False
         v = common.inline_helpers(P, ex[0][3]) if len(ex) == 1 else None
@@ -621,15 +634,37 @@ def zero_tests(ctx, inst):
                 ok = {fld} in rs and len(zs) == 1
             why = ctx.show(v, 5)[:200]
         if not ok:
-            # limb-wise form: the true exit is reached exactly under limb[k] == 0 for k = 0..3
+            # limb-wise form: the true exit is reached exactly under limb[k] == 0 for k = 0..3 — in is_zero itself, or in the
+            # private word test it hands the limb array to (`is_zero_words(&(self.0).0)`)
+            lg, larr = g, fld + ".0"
+            if len(exits) == 1 and exits[0][3][0] == "call" and isinstance(exits[0][3][3], str) and len(exits[0][3][4]) == 1:
+                h_ = P.fn(exits[0][3][3]) or P.fn(generic_path(exits[0][3][3]))
+                if h_ is not None and h_.body is not None and h_.crate == "bignumber" and h_.body.arg_count == 1 and \
+                        set(ctx.roots(exits[0][3][4][0])) == {fld + ".0"}:
+                    lg, larr = h_, P_(h_, 0)
+                    exits = common.exit_sites(P, h_)
             tr = [x for x in exits if x[3] == ("const", "bool", True) or x[3] == ("const", "int", 1)]
+            # `w[0] == 0 && w[1] == 0 && w[2] == 0 && w[3] == 0`: the last test is the returned value itself; every other
+            # exit must then return the literal false
+            last = {}
+            def _limb_eq0(v_):
+                if v_[0] == "binop" and v_[1] == "Eq":
+                    for a_, z_ in ((v_[2], v_[3]), (v_[3], v_[2])):
+                        if z_ == ("const", "int", 0) and a_[0] == "proj" and a_[2][0] == "i" and set(ctx.roots(a_[1])) == {larr}:
+                            return a_[2][1]
+                return None
+            rest = [x for x in exits if x not in tr]
+            if not tr and any(_limb_eq0(x[3]) is not None for x in rest) and \
+                    all(_limb_eq0(x[3]) is not None or x[3] in (("const", "bool", False), ("const", "int", 0)) for x in rest):
+                tr = [x for x in rest if _limb_eq0(x[3]) is not None]
+                last = {x[0]: _limb_eq0(x[3]) for x in tr}
             limbs = set()
             for (b, i, cls, v) in tr:
-                for pc in common.path_conjunctions(P, g, b) or []:
-                    ks = set()
+                for pc in common.path_conjunctions(P, lg, b) or []:
+                    ks = {last[b]} if b in last else set()
                     for c in pc:
                         for s_ in lemmas.cond_strings(ctx, [c]):
-                            m = re.match(r"^is_zero\(%s\.0\[(\d)\]\) is \[True\]$" % re.escape(fld), s_)
+                            m = re.match(r"^is_zero\(%s\[(\d)\]\) is \[True\]$" % re.escape(larr), s_)
                             if m:
                                 ks.add(int(m.group(1)))
                     limbs = ks if not limbs else (limbs & ks)
